@@ -108,11 +108,22 @@ const (
 	ingNameNX    = 36 // nxK.uniqzone.test.
 	ingNameBig   = 40 // big.uniqzone.test. TXT (does not fit 512)
 	ingNameHuge  = 41 // huge.uniqzone.test. TXT (larger than the stream path's 8 KiB staging buffer)
-	ingNameCount = 42
+	ingNameLag   = 42 // bigslow.slowzone.test. TXT: truncated over UDP, fetched over TCP, both legs slow (about 2.4 s in all)
+	ingNameCount = 43
 	ingNameWild  = 1000 // + k: wK.slowzone.test., answered from a wildcard (distinct lookups in one slow zone)
+	// sized TXT answers for frame-boundary arithmetic on stream transports: 2000 = sz.uniqzone.test.
+	// (a 1998-byte reply to a query without OPT), 2001+k = pNNN.uniqzone.test. (reply of 158+k bytes)
+	ingNameSized = 2000
+	ingSizedN    = 80
 )
 
 func ingName(i int) string {
+	if i == ingNameSized {
+		return "sz.uniqzone.test."
+	}
+	if i > ingNameSized {
+		return fmt.Sprintf("p%03d.uniqzone.test.", (i-ingNameSized-1)%ingSizedN)
+	}
 	if i >= ingNameWild {
 		return fmt.Sprintf("w%d.slowzone.test.", i-ingNameWild) // any number of distinct names in the slow zone
 	}
@@ -129,6 +140,8 @@ func ingName(i int) string {
 		return fmt.Sprintf("nx%d.uniqzone.test.", i-ingNameNX)
 	case i == ingNameBig:
 		return "big.uniqzone.test."
+	case i == ingNameLag:
+		return "bigslow.slowzone.test."
 	default:
 		return "huge.uniqzone.test."
 	}
@@ -172,6 +185,22 @@ func ingSpecZones() []world.ZoneSpec {
 		}
 		recs = append(recs, "huge.uniqzone.test. 300 IN TXT "+strings.Join(parts, " "))
 	}
+	txtOf := func(n int) string { // TXT rdata of exactly n octets
+		var parts []string
+		for n > 0 {
+			k := n - 1
+			if k > 255 {
+				k = 255
+			}
+			parts = append(parts, "\""+strings.Repeat("s", k)+"\"")
+			n -= k + 1
+		}
+		return strings.Join(parts, " ")
+	}
+	recs = append(recs, "sz.uniqzone.test. 300 IN TXT "+txtOf(1952))
+	for k := 0; k < ingSizedN; k++ {
+		recs = append(recs, fmt.Sprintf("p%03d.uniqzone.test. 300 IN TXT %s", k, txtOf(110+k)))
+	}
 	var slow, garb []string
 	for i := 0; i < 4; i++ {
 		slow = append(slow, fmt.Sprintf("slow%d.slowzone.test. 300 IN A 10.8.0.%d", i, i+1))
@@ -180,6 +209,7 @@ func ingSpecZones() []world.ZoneSpec {
 		}
 		garb = append(garb, fmt.Sprintf("garb%d.garbzone.test. 300 IN A 10.9.0.%d", i, i+1))
 	}
+	slow = append(slow, "bigslow.slowzone.test. 300 IN TXT "+txtOf(1500))
 	return []world.ZoneSpec{
 		{Name: ".", NSNames: []string{"a.root-servers.net."}, Addrs: []string{"198.41.0.4"}},
 		{Name: "test.", NSNames: []string{"ns.test."}, Addrs: []string{"192.0.9.1"}},
@@ -351,7 +381,11 @@ func execIng(sc *IngScenario, tr *kit.Trace, res *kit.Result) *ingRun {
 	warmClient := netip.MustParseAddrPort("10.3.0.1:39999")
 	for i, n := range sc.Warm {
 		m := new(dns.Msg)
-		m.SetQuestion(ingName(n%ingNameCount), dns.TypeA)
+		if n >= ingNameSized {
+			m.SetQuestion(ingName(n), dns.TypeTXT)
+		} else {
+			m.SetQuestion(ingName(n%ingNameCount), dns.TypeA)
+		}
 		m.Id = uint16(60000 + i)
 		b, _ := m.Pack()
 		g.Send(0, warmClient, b)
@@ -843,6 +877,9 @@ func genIng(r *kit.RNG, flavour string) *IngScenario {
 				}
 				if r.Chance(0.2) {
 					f.Op.Name, f.Op.Type = kit.Pick(r, []int{ingNameBig, ingNameHuge, ingNameHuge}), dns.TypeTXT
+					if flavour == "c11" && r.Chance(0.5) {
+						f.Op.Name = ingNameLag // resolves in more than the stream's per-query wait, well inside the query timeout
+					}
 					f.Op.EDNS = 4096
 				}
 				if r.Chance(0.06) {
@@ -863,6 +900,24 @@ func genIng(r *kit.RNG, flavour string) *IngScenario {
 			case 3:
 				cn.CloseAtMs, cn.Reset = r.Range(1, 3000), true
 			}
+			sc.Conns = append(sc.Conns, cn)
+		}
+	}
+	if r.Chance(0.12) {
+		// frame-boundary arithmetic: four cached 1998-byte replies staged on one connection fill
+		// the stream's 8 KiB drain buffer to 8000 bytes; the fifth reply's size sweeps across
+		// what is left (with and without its two-octet length prefix), a sixth follows it.
+		// Every reply must arrive whole, framed by its own length.
+		sc.Warm = append(sc.Warm, ingNameSized)
+		for i, n := 0, r.Range(3, 5); i < n; i++ {
+			k := r.Range(24, 44)
+			sc.Warm = append(sc.Warm, ingNameSized+1+k)
+			cn := IngConn{Client: r.Intn(nclients), AtMs: r.Intn(at + 500)}
+			for fi := 0; fi < 4; fi++ {
+				cn.Frames = append(cn.Frames, IngFrame{Op: IngOp{Client: cn.Client, Name: ingNameSized, Type: dns.TypeTXT, ID: uint16(r.Range(1, 3))}})
+			}
+			cn.Frames = append(cn.Frames, IngFrame{Op: IngOp{Client: cn.Client, Name: ingNameSized + 1 + k, Type: dns.TypeTXT, ID: uint16(r.Range(1, 3))}},
+				IngFrame{Op: IngOp{Client: cn.Client, Name: r.Intn(ingHosts), ID: uint16(r.Range(1, 3))}})
 			sc.Conns = append(sc.Conns, cn)
 		}
 	}
